@@ -220,6 +220,8 @@ def plan(tier, seed):
     specs.append({"mode": "readonly", "seed": seed * 1000003 + 17 * 1009 + 999, "nrand": 300 if tier == "quick" else 3000})
     specs.append({"mode": "large"})
     specs.append({"mode": "threads", "rounds": 12 if tier == "quick" else 60})
+    for p in range(4):
+        specs.append({"mode": "sim-threads", "part": p, "parts": 4, "cap": 1200 if tier == "quick" else None})
     specs.append({"mode": "diskfull", "seed": seed})
     # long shards first; a few shards contribute the evidence samples
     specs.sort(key=lambda s: -s.get("expect", 0))
@@ -246,6 +248,7 @@ def required_counters(tier):
         "mutable-producer-histories",
         "large-histories",
         "threaded-buffers",
+        "sim-threaded-buffer-runs",
         "diskfull:cases",
         "diskfull:append-raised",
         "remain_invariant_checked",
@@ -955,6 +958,12 @@ def run_shard(spec):
         acc.sample({"mode": "large", "queued_up_to": 533289})
     elif mode == "diskfull":
         run_diskfull(acc, spec)
+    elif mode == "sim-threads":
+        # the same question decided deterministically: two managed threads of the Sim, each with its own
+        # buffer, every single pre-emption at a source line of buffers.py (one thread is interrupted
+        # anywhere inside an operation -- e.g. in the middle of a migration loop -- while the other one
+        # runs its whole history)
+        sim_threads(acc, spec)
     elif mode == "threads":
         # buffers of different connections live in different threads: each one is used sequentially, but
         # several migrate to a temp file at the same time (real threads, a very short switch interval)
@@ -1030,6 +1039,94 @@ def run_shard(spec):
     return acc.out()
 
 
+
+def sim_thread_run(strat, shapes):
+    """-> (mismatches, pilot, steps); shapes: per thread (overflow, block size, blocks, skip)"""
+    from vf.sim import runner as R
+    from vf.sim.world import World
+    from waitress import buffers as B
+
+    w = World(None, strategy=R.make_strategy(strat), start_server=False, infinite_poll=False, step_limit=200000,
+              record_pilot=strat.get("kind") == "np")
+    out = {}
+
+    def worker(tix):
+        ov, bs, nb, skip = shapes[tix]
+        buf = B.OverflowableBuffer(ov)
+        want = bytearray()
+        for i in range(nb):
+            block = bytes([65 + tix]) * bs + b"%02d" % i
+            buf.append(block)
+            want += block
+            if i == 1 and skip:
+                buf.skip(skip, True)
+                del want[:skip]
+        got = bytearray()
+        while True:
+            chunk = buf.get(4000, skip=True)
+            if not chunk:
+                break
+            got += chunk
+        buf.close()
+        out[tix] = (bytes(got), bytes(want))
+
+    for i in range(len(shapes)):
+        w.actor(worker, i, name="buf%d" % i)
+    try:
+        reason = w.run(60)
+        bad = []
+        for tix in range(len(shapes)):
+            if tix not in out:
+                bad.append((tix, "thread did not finish (%s; %s)" % (reason, w.failed)))
+                continue
+            got, want = out[tix]
+            if got != want:
+                first = next((i for i in range(min(len(got), len(want))) if got[i] != want[i]), min(len(got), len(want)))
+                bad.append((tix, "returned %d bytes for %d queued, first difference at offset %d (%r for %r)"
+                            % (len(got), len(want), first, got[first:first + 4], want[first:first + 4])))
+        for t in w.sched.threads:
+            if t.exc is not None:
+                bad.append((t.name, "raised %r" % (t.exc,)))
+        return bad, list(w.sched.pilot or ()), w.sched.steps
+    finally:
+        w.close()
+
+
+SIM_THREAD_SHAPES = [
+    # (overflow, block size, blocks, skip): both cross strbuf -> in-memory file -> temp file
+    [(9000, 3000, 5, 5), (12000, 3500, 5, 0)],
+    [(0, 100, 3, 0), (0, 100, 3, 1)],
+    [(9000, 5000, 3, 0), (9000, 5000, 3, 0), (30000, 9000, 4, 7)],
+]
+
+
+def sim_threads(acc, spec):
+    import random as _r
+
+    n = 0
+    for si, shapes in enumerate(SIM_THREAD_SHAPES):
+        bad, pilot, steps = sim_thread_run({"kind": "np"}, shapes)
+        for who, what in bad:
+            acc.violation("foreign-bytes-under-concurrency", f"buffer of thread {who} (used by that thread only) {what}; schedule: none pre-empted",
+                          {"kind": "sim-threads", "shapes": shapes, "strat": {"kind": "np"}})
+        points = [(e[0], tid) for e in pilot for tid in e[1]]
+        if spec.get("cap") and len(points) > spec["cap"] * spec["parts"]:
+            points = sorted(_r.Random(len(points)).sample(points, spec["cap"] * spec["parts"]))
+            acc.count("sim-threads-capped")
+        for step, tid in points[spec["part"] :: spec["parts"]]:
+            strat = {"kind": "forced", "switches": {str(step): tid}}
+            bad, _p, _s = sim_thread_run(strat, shapes)
+            n += 1
+            acc.evaluations += 1
+            acc.distinct.add("simthr|%d|%d|%d" % (si, step, tid))
+            for who, what in bad:
+                acc.violation("foreign-bytes-under-concurrency",
+                              f"buffer of thread {who} (used by that thread only) {what}; one pre-emption at step {step}",
+                              {"kind": "sim-threads", "shapes": shapes, "strat": strat})
+        acc.sample({"mode": "sim-threads", "shapes": shapes, "single_preemptions": len(points), "steps": steps}, limit=1)
+    acc.count("sim-threaded-buffer-runs", n)
+
+
 # --------------------------------------------------------------------- replay
 
 
@@ -1045,6 +1142,9 @@ def replay(case):
              "what": f"overflow={case['overflow']} op#{idx}: {what} | history: {brief_ops(case['ops'])}"[:900], "case": case}
             for key, what, idx in viols
         ]
+    if kind == "sim-threads":
+        bad, _p, _s = sim_thread_run(case["strat"], [tuple(x) for x in case["shapes"]])
+        return [{"key": "foreign-bytes-under-concurrency", "what": f"buffer of thread {who} {what}", "case": case} for who, what in bad]
     if kind == "threads":
         return []  # a stress run with real threads is not replayable step by step
     if kind == "createfail":
